@@ -239,6 +239,29 @@ def run(ctx):
         ok2 = any(t is not None and cl.edge_dom(bi, t, r.bb) for (bi, t) in eq_edges + pred_edges)
         ctx.ob('C18.2', cl, 'reread-before-rename', ok1, 'the lock record is re-read inside the cleanup before the rename', line=r.line)
         ctx.ob('C18.2', cl, 'pid-match-before-rename', ok2, 'the rename is reachable only when lock.pid == expected_pid', line=r.line)
+    # ... and the endpoint file is retired under the same condition: only the meta.json the dead pid wrote
+    ctx.rule('C18.10', 'recovery removes only the files of the authority that is gone: in the stale cleanup every rename / remove of meta.json is reachable only through the equal edge of a '
+             'comparison of the pid recorded IN that meta.json with the expected (dead) pid. Once lock.json is renamed away the next authority may acquire and publish its endpoint at any moment; '
+             'a cleanup that retires "whatever meta.json it finds" deletes the live authority\'s endpoint file, and no client can attach to it or replace it.')
+    meta_ops = [r for r in cl.calls(r'^std::fs::(rename|remove_file)$') if any(x[0] == 'call' and x[1].endswith('authority_meta_path') for x in sources(cl, r.args[0]))]
+    meta_eq = []
+    for (bi, on, ts, els) in switches(cl):
+        o = cl.origin(on)
+        if o[0] == 'rv' and o[1]['k'] == 'bin' and o[1]['op'] in ('Ne', 'Eq'):
+            a, b = o[1]['a']
+            oa, ob = cl.origin(a), cl.origin(b)
+            flds = []
+            for x in (oa, ob):
+                if x[0] == 'local':
+                    flds += [(pp.get('o') or '', pp.get('n')) for pp in x[2] if isinstance(pp, dict) and 'f' in pp]
+            params = [x[1] for x in (oa, ob) if x[0] == 'local' and not x[2]]
+            if any(n_ == 'pid' and o_ != LA + 'AuthorityLockRecord' and o_.startswith(LA) for (o_, n_) in flds) and pid_param[0] in params:
+                meta_eq.append((bi, ts.get('0') if o[1]['op'] == 'Ne' else els))
+    ctx.floor('C18.10', 'renames / removals of meta.json in the stale cleanup', len(meta_ops), 1)
+    for r in meta_ops:
+        okm_ = any(t is not None and cl.edge_dom(bi, t, r.bb) for (bi, t) in meta_eq)
+        ctx.ob('C18.10', cl, 'meta-pid-match-before-' + r.name, okm_, 'meta.json is %s %s' % ('renamed' if r.name == 'rename' else 'removed',
+               'only when the pid it records is the expected (dead) pid' if okm_ else 'WITHOUT a match of the pid it records against the expected pid: the endpoint file of whoever took over is retired'), line=r.line)
     # recovery does not hinge on the endpoint file: "lock only, dead pid" (the owner died between acquiring and publishing)
     # must be cleanable, so nothing read from meta.json may decide whether the stale lock is retired
     ctx.rule('C18.9', 'a crashed owner\'s lock is retired whatever became of its endpoint file: in the stale cleanup no test of what read_authority_meta returned can lead to a return that bypasses the rename of lock.json. The leftover state "lock.json of a dead pid, no meta.json" is what a crash between acquire and publish leaves; if the cleanup declines it, the store never becomes usable again.')
